@@ -107,6 +107,12 @@ oracle_case("C08", "algo/OracleC08", "dfs", lambda v: v[0]["seq"].append(v[0]["s
 oracle_case("C06", "algo/OracleC06", "nbr", lambda v: v[0].append(0))
 oracle_case("C15", "algo/OracleC15", "greedy", lambda v: v.__setitem__("len", v["len"] + 1))
 
+# negative configurations of the implementation-shaped models: re-introducing a defect must break an invariant
+for mod, cfg, what in [("graph/StableImpl", "MCStableImplNeg.cfg", "reverse() swapping the links of vacant slots (shipped before 672bf88)"),
+                       ("graph/GraphImpl", "MCGraphImplNeg.cfg", "remove_edge not relinking the edge moved by swap_remove")]:
+    r = tlc(mod, cfg, workers=6, timeout=600)
+    expect("%s negative config violates Inv: %s" % (mod.split("/")[1], what), any("Invariant Inv is violated" in e for e in r.errors), str(r.errors[:1]))
+
 bad = [r for r in results if not r["ok"]]
 os.makedirs(os.path.join(VERIF, "evidence"), exist_ok=True)
 json.dump({"tests": results, "failed": len(bad)}, open(os.path.join(VERIF, "evidence", "selftest.json"), "w"), indent=1)
